@@ -31,10 +31,14 @@ std::map<void const *, int> g_msIds;
 std::map<void const *, int> g_thIds;
 std::map<int, std::unordered_set<uint32_t>> g_declared; // per logic ctx: SymRef.x already emitted
 
+// Ids are handed out by counters, never derived from addresses or map sizes: an object allocated at the address of a
+// destroyed one must get a new identity (otherwise a run would depend on heap layout).
+int g_nextMsId = 0, g_nextLogicId = 0, g_nextThId = 0;
+
 int idOf(std::map<void const *, int> & m, void const * p) {
     auto it = m.find(p);
     if (it != m.end()) return it->second;
-    int id = (int)m.size();
+    int id = g_nextMsId++;
     m[p] = id;
     return id;
 }
@@ -140,7 +144,7 @@ struct Printer {
 int logicCtx(Logic const & logic) {
     auto it = g_logicIds.find(&logic);
     if (it != g_logicIds.end()) return it->second;
-    int id = (int)g_logicIds.size();
+    int id = g_nextLogicId++;
     g_logicIds[&logic] = id;
     return id;
 }
@@ -264,6 +268,7 @@ struct ThCtx {
     std::unordered_set<std::string> seenTClauses;
     int loggedTClauses = 0;
     uint64_t droppedTClauses = 0;
+    bool pendingInit = false; // the last input clause was the unit {true}
 };
 std::map<void const *, ThCtx> g_th;
 uint64_t g_kindCount[16];
@@ -272,8 +277,25 @@ ThCtx & thCtx(void const * th) {
     auto it = g_th.find(th);
     if (it != g_th.end()) return it->second;
     ThCtx & c = g_th[th];
-    c.id = (int)g_th.size() - 1;
+    c.id = g_nextThId++;
     return c;
+}
+
+uint64_t g_retiredChecked = 0, g_retiredNontrivial = 0, g_retiredFailed = 0, g_retiredSkipped = 0, g_retiredAxioms = 0, g_retiredDropped = 0, g_retiredLogged = 0;
+int g_retiredSolvers = 0;
+
+void retireThCtx(void const * th) {
+    auto it = g_th.find(th);
+    if (it == g_th.end()) return;
+    g_retiredChecked += it->second.rup.checked;
+    g_retiredNontrivial += it->second.rup.nontrivial;
+    g_retiredFailed += it->second.rup.failed;
+    g_retiredSkipped += it->second.rup.skipped;
+    g_retiredAxioms += it->second.rup.axioms;
+    g_retiredDropped += it->second.droppedTClauses;
+    g_retiredLogged += it->second.loggedTClauses;
+    ++g_retiredSolvers;
+    g_th.erase(it);
 }
 
 char const * kindName(int k) {
@@ -320,21 +342,39 @@ void logTheoryClause(ThCtx & ctx, THandler const & th, char const * kind, std::v
 }
 
 void clauseHook(void const * thp, int kind, void const * litsp, int n) {
-    bool watch = currentTask() != nullptr;
-    (void)watch;
-    setTickWatch(false); // the monitor's own work is not simulated time
+    bool const watch = setTickWatch(false); // the monitor's own work is not simulated time
     THandler const & th = *static_cast<THandler const *>(thp);
+    Lit const * lits = static_cast<Lit const *>(litsp);
+    // MainSolver::initialize() starts every SAT engine with the unit clause {true}: if a context already exists for this
+    // THandler address, it belongs to a destroyed solver that lived at the same address (e.g. the internal solver of
+    // unsat-core minimisation) and must not be mixed with the new one.
+    // MainSolver::initialize() starts every SAT engine with the unit clauses {true} and {not false}, in this order and with
+    // nothing in between (an asserted "true" can produce the first one again, but never the pair).
+    if (kind == verifsim::CK_ORIG) {
+        auto it = g_th.find(thp);
+        if (it != g_th.end() && !it->second.rup.clauses.empty()) {
+            bool isTrueUnit = n == 1 && var(lits[0]) == 0 && !sign(lits[0]);
+            bool isNotFalseUnit = n == 1 && var(lits[0]) == 1 && sign(lits[0]);
+            if (it->second.pendingInit && isNotFalseUnit) {
+                retireThCtx(thp);
+                ThCtx & fresh = thCtx(thp);
+                fresh.rup.addClause({toInt(mkLit(0, false))});
+                ++fresh.rup.axioms;
+            } else {
+                it->second.pendingInit = isTrueUnit;
+            }
+        }
+    }
     ThCtx & ctx = thCtx(thp);
     if (kind >= 0 && kind < 16) ++g_kindCount[kind];
-    Lit const * lits = static_cast<Lit const *>(litsp);
     std::vector<Lit> lv(lits, lits + (n > 0 ? n : 0));
 
-    if (kind == verifsim::CK_ELIM_BEGIN) { ctx.rup.inElim = true; setTickWatch(true); return; }
-    if (kind == verifsim::CK_ELIM_END) { ctx.rup.inElim = false; setTickWatch(true); return; }
+    if (kind == verifsim::CK_ELIM_BEGIN) { ctx.rup.inElim = true; setTickWatch(watch); return; }
+    if (kind == verifsim::CK_ELIM_END) { ctx.rup.inElim = false; setTickWatch(watch); return; }
     if (kind == verifsim::CK_TROOTTRAIL) {
         ctx.rootTrail.clear();
         for (Lit l : lv) ctx.rootTrail.push_back(toInt(l));
-        setTickWatch(true);
+        setTickWatch(watch);
         return;
     }
 
@@ -394,13 +434,13 @@ void clauseHook(void const * thp, int kind, void const * litsp, int n) {
             ctx.rup.addClause(c);
         }
     }
-    setTickWatch(true);
+    setTickWatch(watch);
 }
 
 // ------------------------------------------------------------------ frames (C13)
 void frameHook(void const * msp, int kind, unsigned frame, unsigned term) {
     if (!g_cfg.frames) return;
-    setTickWatch(false);
+    bool const watch = setTickWatch(false);
     MainSolver const & ms = *static_cast<MainSolver const *>(msp);
     int id = idOf(g_msIds, msp);
     char const * k = kind == verifsim::FK_SIMPLIFY_BEGIN ? "begin" : kind == verifsim::FK_ASSERTED ? "asserted" : kind == verifsim::FK_ROOT ? "root" : "end";
@@ -414,7 +454,7 @@ void frameHook(void const * msp, int kind, unsigned frame, unsigned term) {
     }
     rec += "}";
     logRaw(rec);
-    setTickWatch(true);
+    setTickWatch(watch);
 }
 
 // ------------------------------------------------------------------ Farkas (C26)
@@ -466,7 +506,7 @@ uint64_t g_laConflicts = 0, g_laNontrivial = 0, g_laViolations = 0, g_laUnparsab
 
 void laConflictHook(void const * logicp, void const * explp, void const * coeffsp) {
     if (!g_cfg.farkas) return;
-    setTickWatch(false);
+    bool const watch = setTickWatch(false);
     ArithLogic const & logic = *static_cast<ArithLogic const *>(logicp);
     vec<PtAsgn> const & expl = *static_cast<vec<PtAsgn> const *>(explp);
     std::vector<Real> const & coeffs = *static_cast<std::vector<Real> const *>(coeffsp);
@@ -537,7 +577,7 @@ void laConflictHook(void const * logicp, void const * explp, void const * coeffs
             logRaw(rec);
         }
     }
-    setTickWatch(true);
+    setTickWatch(watch);
 }
 
 // ------------------------------------------------------------------ unusual (N8)
@@ -583,14 +623,25 @@ void monitorsUninstall() {
 }
 
 void monitorsRegisterMainSolver(MainSolver const * ms, char const * role) {
+    bool const watch = setTickWatch(false);
+    // a registered solver is new by definition: fresh ids for it, its logic and its theory handler
+    g_msIds.erase(ms);
+    auto lit = g_logicIds.find(&ms->getLogic());
+    if (lit != g_logicIds.end()) {
+        g_declared.erase(lit->second);
+        g_logicIds.erase(lit);
+    }
+    retireThCtx(&ms->getTHandler());
     int id = idOf(g_msIds, ms);
     logRaw("{\"ev\":\"ms\",\"id\":" + std::to_string(id) + ",\"role\":\"" + role + "\",\"ctx\":" + std::to_string(logicCtx(ms->getLogic())) + "}");
+    setTickWatch(watch);
 }
 
 void monitorsSummary() {
     if (!g_installed) return;
     std::string rec = "{\"ev\":\"monitors\"";
-    uint64_t checked = 0, nontriv = 0, failed = 0, skipped = 0, axioms = 0, dropped = 0, logged = 0;
+    uint64_t checked = g_retiredChecked, nontriv = g_retiredNontrivial, failed = g_retiredFailed, skipped = g_retiredSkipped, axioms = g_retiredAxioms,
+             dropped = g_retiredDropped, logged = g_retiredLogged;
     for (auto const & kv : g_th) {
         checked += kv.second.rup.checked;
         nontriv += kv.second.rup.nontrivial;
@@ -601,7 +652,7 @@ void monitorsSummary() {
         logged += kv.second.loggedTClauses;
     }
     rec += ",\"rup_checked\":" + std::to_string(checked) + ",\"rup_nontrivial\":" + std::to_string(nontriv) + ",\"rup_failed\":" + std::to_string(failed) +
-           ",\"rup_skipped\":" + std::to_string(skipped) + ",\"rup_axioms\":" + std::to_string(axioms) + ",\"solvers\":" + std::to_string(g_th.size()) +
+           ",\"rup_skipped\":" + std::to_string(skipped) + ",\"rup_axioms\":" + std::to_string(axioms) + ",\"solvers\":" + std::to_string(g_th.size() + g_retiredSolvers) +
            ",\"tclauses_logged\":" + std::to_string(logged) + ",\"tclauses_dropped\":" + std::to_string(dropped) +
            ",\"la_conflicts\":" + std::to_string(g_laConflicts) + ",\"la_nontrivial\":" + std::to_string(g_laNontrivial) +
            ",\"la_violations\":" + std::to_string(g_laViolations) + ",\"la_unparsable\":" + std::to_string(g_laUnparsable);
